@@ -2,7 +2,7 @@
    Statements only; every proof is `exact <lemma>`.  A Basis3 is modelled by its matrix. *)
 
 From CG Require Import Scalar Model.Vector Model.Point Model.Matrix Model.Angle Model.Quaternion Model.Metric Model.Rotation
-                       Exec.ExecQ Proofs.Alg Proofs.RealInst Proofs.NsatzField Proofs.C05_Repr Proofs.C05_ReprR.
+                       Exec.ExecQ Proofs.Alg Proofs.RealInst Proofs.NsatzField Proofs.C05_Repr Proofs.C05_ReprR Proofs.C05_RotationR.
 From Coq Require Import List Ring Field QArith Qcanon Reals.
 Import ListNotations.
 
@@ -46,6 +46,21 @@ Theorem C05_roundtrip_basis3 : forall q : Quat R, quat_magnitude2 OpsR q = 1%R -
   quat_of_basis3 OpsR TrigR (basis3_from_quaternion OpsR q) = quat_neg OpsR q.
 Proof. exact quat_of_m3_roundtrip. Qed.
 Print Assumptions C05_roundtrip_basis3.
+
+(* 4b. the back conversion is a right inverse on EVERY rotation matrix (M M^T = I, det M = +1), not only on the
+       matrices of unit quaternions: the result is a unit quaternion whose matrix is M, in all four branches (reals).
+       (Together with 4: From<Matrix3> for Quaternion and From<Quaternion> for Matrix3 are mutually inverse between
+       rotation matrices and unit quaternions modulo sign.) *)
+Theorem C05_back_conversion_all_rotations : forall M : M3 R,
+  m3_mul OpsR M (m3_transpose M) = m3_identity OpsR -> m3_determinant OpsR M = 1%R ->
+  quat_magnitude2 OpsR (quat_of_m3 OpsR TrigR M) = 1%R /\ m3_of_quat OpsR (quat_of_m3 OpsR TrigR M) = M.
+Proof. exact quat_of_rotation. Qed.
+Print Assumptions C05_back_conversion_all_rotations.
+(* its hypotheses are met by a matrix that is not the matrix of an "obvious" quaternion: a quarter turn about z *)
+Example C05_rotation_example :
+  let M := (m3_new 0 1 0 (-1) 0 0 0 0 1)%R : M3 R in
+  m3_mul OpsR M (m3_transpose M) = m3_identity OpsR /\ m3_determinant OpsR M = 1%R.
+Proof. exact rotation_example. Qed.
 
 (* 5. all four branches are inhabited by unit quaternions (so the round trip covers each of them) *)
 Theorem C05_branches_inhabited :
